@@ -756,7 +756,12 @@ def naming_precedence_rule(syn, prop, rule="C09.R2"):
         for cell, nm in ((("some", "some"), "rename+rename_all"), (("some", "none"), "rename"), (("none", "some"), "rename_all"), (("none", "none"), "neither")):
             i = S.first_match(arms, cell)
             body = S.squash(e["arms"][i]["body"]) if i is not None else ""
-            applies = ".apply(" in body
+            conv = re.findall(r"\.(apply\w*)\(", body)
+            applies = bool(conv)
+            role = "variant" if fn["qual"].endswith("format_variant") else "field"
+            wrong = [c for c in conv if ("variant" in c and role == "field") or ("field" in c and role == "variant")]
+            if wrong:
+                r.fail(prop, "conversion-role %s" % fn["qual"], "a %s naming site uses %s" % (role, wrong[0]), fn["file"], e["line"])
             # identifier source: to_ts_ident(..) / .unraw()
             ident_src = bool(re.search(r"field_name|unraw\(\)", body))
             if cell[0] == "some":
